@@ -20,6 +20,8 @@ def applicable(f, kind='-'):
         ops += ['assignval']
     else:
         ops += ['write', 'detach']
+        if f == 'str':
+            ops += ['resize', 'reserve']
         if f == 'var':
             ops += ['assignval']
         if not (f == 'var' and kind == 'string') and f != 'str':
@@ -34,7 +36,7 @@ def gen_history(rng, f, n, nv=NV, valid=0.93, kind=None):
     ops = []
     kinds = applicable(f, kind)
     w = {'create': 2, 'null': 1, 'copy': 5, 'assign': 5, 'reset': 2, 'destroy': 3, 'swap': 3, 'fromraw': 2, 'write': 4, 'detach': 2,
-         'assignraw': 3, 'assignval': 3, 'viaelem': 3}
+         'assignraw': 3, 'assignval': 3, 'viaelem': 3, 'resize': 3, 'reserve': 2}
     for _ in range(n):
         k = rng.choices(kinds, [w[x] for x in kinds])[0]
         lv = [i for i in range(nv) if live[i]]
@@ -83,6 +85,10 @@ def gen_history(rng, f, n, nv=NV, valid=0.93, kind=None):
             ops.append('write %d %d' % (a, rng.randrange(1, 8)))
         elif k == 'assignval':
             ops.append('assignval %d %s' % (a, digits(rng, rng.choice([0, 1, 2, 3, 5]))))
+        elif k == 'resize':
+            ops.append('resize %d %d' % (a, rng.choice([0, 0, 0, 1, 2, 3, 5, 9])))
+        elif k == 'reserve':
+            ops.append('reserve %d %d' % (a, rng.choice([0, 0, 1, 3, 4, 7, 8, 20])))
         else:
             ops.append('%s %d' % (k, a))
     return ['@%s %s' % (f, kind)] + ops
@@ -96,6 +102,8 @@ def small_alphabet(f, nv, kind='-'):
             al += ['write %d %d' % (v, 4 + v), 'detach %d' % v]
         if 'assignval' in applicable(f, kind):
             al += ['assignval %d 7%d' % (v, 1 + v)]
+        if 'resize' in applicable(f, kind):
+            al += ['resize %d 0' % v, 'resize %d 2' % v, 'reserve %d 0' % v, 'reserve %d 9' % v]
     for a in range(nv):
         for b in range(nv):
             al.append('assign %d %d' % (a, b))
@@ -222,14 +230,176 @@ def conc_exhaustive(f, depth, per_case=64):
     return cases
 
 
+# ---- handles stored inside payloads (flavour nest) -------------------------------------------------
+NNV = 4
+NEST_KINDS = ('same', 'conv')
+
+
+class NestSim:
+    """pointer graph only (no counters, no releases): used by the generator to know which locations resolve"""
+    def __init__(self):
+        self.vars = [None] * NNV          # None = not constructed, 'null', or object id
+        self.next = []                    # object id -> 'null' or object id
+
+    def holder(self, v, k):
+        o = self.vars[v]
+        if o is None or o == 'null':
+            return None
+        for _ in range(1, k):
+            o = self.next[o]
+            if o == 'null':
+                return None
+        return o
+
+    def resolvable(self, v, k):
+        if self.vars[v] is None:
+            return False
+        return k == 0 or self.holder(v, k) is not None
+
+    def get(self, v, k):
+        return self.vars[v] if k == 0 else self.next[self.holder(v, k)]
+
+    def put(self, v, k, x):
+        if k == 0:
+            self.vars[v] = x
+        else:
+            self.next[self.holder(v, k)] = x
+
+    def locations(self, maxk=4):
+        return [(v, k) for v in range(NNV) for k in range(maxk + 1) if self.resolvable(v, k)]
+
+    def apply(self, op):
+        t = op.split()
+        a = [int(x) for x in t[1:]]
+        if t[0] == 'create' and self.vars[a[0]] is None:
+            self.next.append('null'); self.vars[a[0]] = len(self.next) - 1
+        elif t[0] == 'null' and self.vars[a[0]] is None:
+            self.vars[a[0]] = 'null'
+        elif t[0] == 'destroy':
+            self.vars[a[0]] = None
+        elif t[0] == 'copy' and self.vars[a[0]] is None and self.resolvable(a[1], a[2]):
+            self.vars[a[0]] = self.get(a[1], a[2])
+        elif t[0] in ('assign', 'assignraw') and self.resolvable(a[0], a[1]) and self.resolvable(a[2], a[3]):
+            self.put(a[0], a[1], self.get(a[2], a[3]))
+        elif t[0] == 'reset' and self.resolvable(a[0], a[1]):
+            self.put(a[0], a[1], 'null')
+
+
+def gen_nest(rng, n, kind=None, valid=0.93, nv=NNV):
+    """mostly valid history over <variable, depth> locations; biased towards sources stored inside the payload
+    the target is a handle of (cur = cur->next, a->next = a->next->next) and towards growing chains"""
+    kind = kind or rng.choice(NEST_KINDS)
+    sim = NestSim()
+    ops = []
+    kinds = ['create', 'null', 'copy', 'assign', 'assignraw', 'reset', 'destroy']
+    w = [4, 1, 3, 9, 3, 2, 3]
+    for _ in range(n):
+        k = rng.choices(kinds, w)[0]
+        lv = [v for v in range(nv) if sim.vars[v] is not None]
+        dv = [v for v in range(nv) if sim.vars[v] is None]
+        locs = [l for l in sim.locations() if l[0] < nv]
+        if rng.random() > valid:
+            a = [rng.randrange(nv), rng.randrange(5), rng.randrange(nv), rng.randrange(5)]
+            op = {'create': 'create %d %d' % (a[0], rng.randrange(100)), 'null': 'null %d' % a[0], 'destroy': 'destroy %d' % a[0],
+                  'copy': 'copy %d %d %d' % (a[0], a[2], a[3]), 'reset': 'reset %d %d' % (a[0], a[1])}.get(k, '%s %d %d %d %d' % (k, a[0], a[1], a[2], a[3]))
+        elif k in ('create', 'null'):
+            if not dv:
+                op = 'destroy %d' % rng.choice(lv)
+            else:
+                op = '%s %d' % (k, rng.choice(dv)) + (' %d' % rng.randrange(100) if k == 'create' else '')
+        elif k == 'destroy':
+            if not lv:
+                continue
+            op = 'destroy %d' % rng.choice(lv)
+        elif k == 'copy':
+            if not dv or not locs:
+                continue
+            op = 'copy %d %d %d' % ((rng.choice(dv),) + rng.choice(locs))
+        elif k == 'reset':
+            if not locs:
+                continue
+            op = 'reset %d %d' % rng.choice(locs)
+        else:
+            if not locs:
+                continue
+            d = rng.choice(locs)
+            r = rng.random()
+            inner = [(v, kk) for (v, kk) in locs if v == d[0] and kk > d[1]]
+            tails = [l for l in locs if sim.get(*l) == 'null' and l[1] > 0]
+            if r < 0.45 and inner:
+                s_ = min(inner, key=lambda l: l[1]) if rng.random() < 0.7 else rng.choice(inner)     # source inside the target's payload
+            elif r < 0.8 and tails:
+                d = rng.choice(tails)                                                                 # grow a chain (no cycle)
+                on_path = {sim.holder(d[0], j) for j in range(1, d[1] + 1)}
+                fresh = [(v, 0) for v in lv if sim.vars[v] != 'null' and sim.vars[v] not in on_path]
+                if not fresh:
+                    op = 'destroy %d' % rng.choice(lv) if (not dv or rng.random() < 0.3) else 'create %d %d' % (rng.choice(dv), rng.randrange(100))
+                    ops.append(op)
+                    sim.apply(op)
+                    continue
+                s_ = rng.choice(fresh)
+            else:
+                s_ = rng.choice(locs)
+            op = '%s %d %d %d %d' % (k, d[0], d[1], s_[0], s_[1])
+        ops.append(op)
+        sim.apply(op)
+    return ['@nest ' + kind] + ops
+
+
+def nest_chain(length, first=10):
+    """variable 0 holds the head of a chain of `length` objects, each kept alive by its predecessor only"""
+    ops = ['create 0 %d' % first]
+    for i in range(1, length):
+        ops += ['create 1 %d' % (first + i), 'assign 0 %d 1 0' % i, 'destroy 1']
+    return ops
+
+
+def nest_targeted():
+    t = []
+    for kind in NEST_KINDS:
+        h = '@nest ' + kind
+        for L in (2, 3, 4):
+            ch = nest_chain(L)
+            for a in ('assign', 'assignraw'):
+                t.append([h] + ch + ['%s 0 0 0 1' % a] * L)                                  # cur = cur->next down the chain
+                t.append([h] + ch + ['%s 0 1 0 2' % a] * (L - 1))                            # a->next = a->next->next
+                t.append([h] + ch + ['%s 0 0 0 2' % a, '%s 0 0 0 1' % a])                    # cur = cur->next->next
+                t.append([h] + ch + ['copy 1 0 1', '%s 0 0 0 1' % a, '%s 1 0 1 1' % a, 'destroy 0', '%s 1 0 1 1' % a])
+                t.append([h] + ch + ['%s 0 0 0 0' % a, '%s 0 1 0 1' % a, '%s 0 %d 0 0' % (a, L), 'copy 1 0 1', 'destroy 0', '%s 1 0 1 1' % a, 'destroy 1'])   # self, cycle
+                t.append([h] + ch + ['copy 1 0 %d' % (L - 1), '%s 1 0 1 1' % a, '%s 0 0 1 0' % a])
+            t.append([h] + ch + ['reset 0 1', 'reset 0 0'])
+            t.append([h] + ch + ['reset 0 %d' % (L - 1), 'reset 0 1', 'destroy 0'])
+            t.append([h] + ch + ['destroy 0'])                                              # the whole chain goes
+            t.append([h] + ch + ['copy 1 0 %d' % (L - 1), 'destroy 0', 'destroy 1'])        # the cascade stops at a shared object
+            t.append([h] + ch + ['copy 1 0 1', 'copy 2 1 1', 'reset 0 0', 'reset 1 0', 'null 3', 'assign 2 0 3 0'])
+            t.append([h] + ch + ['null 1', 'assign 0 1 1 0', 'assign 0 0 1 0', 'assign 1 0 0 1'])
+    return t
+
+
+def nest_alphabet(nv=2, maxk=2, raw=True):
+    al = []
+    for v in range(nv):
+        al += ['create %d 7%d' % (v, v), 'null %d' % v, 'destroy %d' % v] + ['reset %d %d' % (v, k) for k in range(maxk + 1)]
+    for d in range(nv):
+        for s_ in range(nv):
+            for sk in range(maxk + 1):
+                if d != s_:
+                    al.append('copy %d %d %d' % (d, s_, sk))
+                for dk in range(maxk + 1):
+                    al.append('assign %d %d %d %d' % (d, dk, s_, sk))
+                    if raw:
+                        al.append('assignraw %d %d %d %d' % (d, dk, s_, sk))
+    return al
+
+
 class C09(Check):
     id = 'C09'
     comp = 'Rc'
     extracted = ['coq/Rc/model.mli', 'coq/Rc/model.ml', 'ocaml/zconv.ml', 'ocaml/rc_driver.ml']
-    harness_sources = ['harness/rc.cpp']
+    harness_sources = ['harness/rc.cpp', 'harness/rc_nest.cpp']
     harness_link_flags = ['-Wl,--wrap=_ZN6Memory4copyEPvPKvm']      # Memory::copy out of a payload block is a trace event
     per_case_timeout = 20
-    level_text = ('Proved in Coq for the model: (sequential) for every history of create/null/copy/fromraw/assign/assignraw/assignval/reset/swap/write/detach/destroy '
+    level_text = ('Proved in Coq for the model: (sequential) for every history of create/null/copy/fromraw/assign/assignraw/assignval/reset/swap/write/detach/resize/reserve/destroy '
                   'on String, Variant, RefCount::Ptr and Xml::Variant handles the counter of a payload equals the number of live handles referring to it, '
                   'a payload is released exactly once, exactly when its last handle goes, never accessed afterwards and modified in place only while '
                   'exactly one handle refers to it, and the CONTENTS read through the handles (for Ptr: the identities of the objects) are those of the '
@@ -261,9 +431,10 @@ class C09(Check):
                   'allocations made inside the library calls: after every operation the blocks allocated for payloads must be exactly those reachable '
                   'from the live payloads. One payload type per case (Variant: list, map, array or string; Xml::Variant: element or text): a write access '
                   'through the accessor of another type than the one stored (type-changing branch) is not driven; Xml::Variant text payloads have no '
-                  'write accessor (value assignment only), element payloads no value assignment. Nested Variant payloads (handles inside payloads) are not '
-                  'modelled; String/Variant constructors from literals (uncounted inline data) are outside the model. The converting '
-                  'Ptr(const Ptr<D>&) / operator=(const Ptr<D>&) are driven in sequential cases only (kind conv).')
+                  'write accessor (value assignment only), element payloads no value assignment. Handles stored inside payloads are modelled for '
+                  'RefCount::Ptr (machine RcNest: a pointee type with a Ptr member, locations <variable, depth>, sequential only); for that machine the Model and the reference object (RcNest.pstep) are compared with the implementation, no theorem yet; '
+                  'nested Variant payloads are driven only through viaelem; String/Variant constructors from literals (uncounted inline data) are '
+                  'outside the model. The converting Ptr(const Ptr<D>&) / operator=(const Ptr<D>&) are driven in sequential cases only (kinds conv).')
     technique = ('machine-checked proof (Coq 8.16) about an executable model (sequential handle/block machine + interleaving machine + trace acceptor) + differential '
                  'correspondence (ASan/UBSan): sequential histories op by op with contents and a ledger of every allocation, concurrent scenarios with real '
                  'threads under a baton-passing scheduler hooked at every atomic operation whose recorded access trace is replayed step by step through the '
@@ -417,7 +588,7 @@ class C09(Check):
         fails = Check.judge(self, cases, impl_obs, spec_obs)
         bad = {i for (i, _, _) in fails}
         for i, obs in enumerate(impl_obs):
-            if i in bad:
+            if i in bad or (cases[i] and cases[i][0].startswith('@nest')):
                 continue
             model = self._model_by_key.get('\n'.join(cases[i]), [])
             for k, line in enumerate(obs):
@@ -461,6 +632,9 @@ class C09(Check):
                 if len(t) >= 3 and t[0] == 't' and t[2] in ('copy', 'assign', 'drop', 'write', 'reserve', 'reset'):
                     counting.add(t[1])
             return len(counting) >= 2
+        if case and case[0].startswith('@nest'):
+            # a handle stored inside a payload was followed, and some object was released
+            return any('>' in l.split(' | ')[0] for l in obs) and any(re.search(r'dtors=[1-9]', l) for l in obs)
         shared = False
         released = False
         for line in obs:
@@ -500,6 +674,23 @@ class C09(Check):
                     cases.append(['@%s %s' % (f, kind), 'create 0 123'] + list(tup))
             out.append(Stream('exh_' + f, cases, exhaustive=False,
                               note='every sequence of %d ops over 2 variables after `create 0 123` (%s)' % (depth, '; '.join(notes))))
+        # handles stored inside payloads
+        cases = [gen_nest(rng, rng.randrange(6, 40)) for _ in range(6000 if thorough else 1500)]
+        cases += [gen_nest(rng, rng.randrange(6, 30), nv=2, valid=0.97) for _ in range(3000 if thorough else 700)]
+        cases += [gen_nest(rng, rng.randrange(4, 30), valid=0.5) for _ in range(1500 if thorough else 300)]
+        cases += nest_targeted()
+        out.append(Stream('nest', cases, note='RefCount::Ptr to a pointee with a Ptr member (same-type and converting overloads): random histories over <variable, depth> '
+                          'locations (4 and 2 variables, biased towards a source stored inside the payload the target refers to; half-malformed ones), targeted: walking / '
+                          'unlinking / skipping along chains of 2-4 objects through operator= and operator=(C*), reset and destruction cascades, self assignment, cycles'))
+        cases = []
+        al = nest_alphabet(2, 2, raw=not thorough)
+        ndepth = 3 if thorough else 2
+        for kind in NEST_KINDS:
+            for tup in itertools.product(al, repeat=ndepth):
+                cases.append(['@nest ' + kind] + nest_chain(3) + list(tup))
+        out.append(Stream('exh_nest', cases, exhaustive=False,
+                          note='every sequence of %d ops (%d letters: locations of depth 0-2 over 2 variables%s) after building a chain of 3 objects held by variable 0, both kinds'
+                          % (ndepth, len(al), '' if thorough else ', operator=(C*) included')))
         # concurrent: explicit schedules (baton passing at every atomic operation), access trace replayed
         for f in FLAVS:
             cases = [gen_conc(rng, f) for _ in range(1500 if thorough else 500)]
@@ -537,6 +728,12 @@ class C09(Check):
                           'create 5 5', 'copy 4 5', 'viaelem 5 4'])
             t.append(['@xml text', 'create 0 ' + d, 'copy 1 0', 'assignval 1 71', 'assignval 1 72', 'copy 2 1', 'assignval 1 -', 'assign 2 2', 'assign 1 2'])
         t.append(['@str -', 'null 0', 'write 0 1', 'null 1', 'detach 1', 'copy 2 1', 'reset 1', 'reset 2', 'assign 0 1'])
+        # write accesses that reach detach(.., 0) on a shared payload / on the static empty data
+        for d in ('-', '1', '123', '1234', '12345671'):
+            t.append(['@str -', 'create 0 ' + d, 'copy 1 0', 'resize 1 0', 'write 1 5', 'copy 2 0', 'reserve 2 0', 'write 2 6', 'copy 3 0', 'detach 3', 'resize 0 0', 'write 0 7'])
+            t.append(['@str -', 'create 0 ' + d, 'copy 1 0', 'copy 2 1', 'resize 2 1', 'resize 1 0', 'resize 1 0', 'reserve 1 0', 'detach 1', 'copy 3 1', 'reserve 3 0', 'detach 1', 'resize 0 2', 'reserve 0 8', 'reserve 0 2'])
+            t.append(['@str -', 'create 0 ' + d, 'resize 0 0', 'copy 1 0', 'reserve 1 0', 'copy 2 0', 'detach 2', 'copy 3 0', 'resize 3 0', 'write 0 1', 'write 1 2'])
+        t.append(['@str -', 'null 0', 'resize 0 0', 'null 1', 'reserve 1 0', 'copy 2 1', 'resize 2 0', 'null 3', 'copy 4 3', 'resize 4 3', 'reserve 3 5', 'write 3 1'])
         for kind in KINDS['var']:
             t.append(['@var ' + kind, 'null 0', 'write 0 1', 'null 1', 'detach 1', 'copy 2 1', 'reset 1', 'assign 0 1', 'null 3', 'assignval 3 12'])
         t.append(['@xml element', 'null 0', 'write 0 1', 'null 1', 'detach 1', 'copy 2 1', 'reset 1', 'assign 0 1', 'assign 0 0'])
